@@ -10,6 +10,7 @@ import (
 	"regexp"
 	"sort"
 	"strings"
+	"sync"
 
 	"github.com/ohler55/slip"
 
@@ -294,8 +295,40 @@ type expected struct {
 	err   *ref.Error
 }
 
-func runRef(forms []*ref.V, typed bool) (e expected) {
+func runRef(forms []*ref.V, typed bool) (e expected) { return runRefMode(forms, typed, false) }
+
+// expectations returns what the language permits: the reference result, and
+// - when a dolist/dotimes variable is used after its iteration ended, which
+// the language leaves to the implementation - also the result under the
+// other permitted rule (one binding assigned on every iteration).
+func expectations(forms []*ref.V, typed bool) []expected {
+	e := runRefMode(forms, typed, false)
+	out := []expected{e}
+	if e.err == nil {
+		for _, n := range e.notes {
+			if n == "loop-variable-after-its-iteration" {
+				if a := runRefMode(forms, typed, true); a.err == nil || a.err.Class != "limit" {
+					out = append(out, a)
+				}
+			}
+		}
+	}
+	return out
+}
+
+// compareAny: agreement with any permitted expectation is agreement.
+func compareAny(es []expected, o outcome) (kind, detail string) {
+	for i := len(es) - 1; 0 <= i; i-- {
+		if kind, detail = compare(es[i], o); kind == "" {
+			return
+		}
+	}
+	return
+}
+
+func runRefMode(forms []*ref.V, typed, loopAssign bool) (e expected) {
 	ev := ref.New(refSteps)
+	ev.LoopAssign = loopAssign
 	vals, err := ev.Run(forms)
 	e.err = err
 	e.steps = ev.Steps
@@ -330,6 +363,13 @@ func budgetFor(e expected) int { return 10*e.steps + 2000 }
 // compare returns "" when the observation equals the expectation, else the
 // kind of divergence and a description.
 func compare(e expected, o outcome) (kind, detail string) {
+	if e.err != nil {
+		// under this permitted rule the program signals an error
+		if o.err != nil {
+			return "", ""
+		}
+		return "no-error", "returned " + strings.Join(o.vals, " ; ") + ", an error is expected"
+	}
 	if o.err != nil {
 		k := "error:" + o.err.Class
 		if o.err.Internal {
@@ -453,6 +493,19 @@ func all(pos string, fs []*ref.V) []child {
 	return out
 }
 
+// initChildren: the init forms of &optional / &key parameters.
+func initChildren(ll *ref.V) []child {
+	var out []child
+	if isList(ll) {
+		for _, p := range ll.L {
+			if isList(p) && len(p.L) == 2 {
+				out = append(out, child{"init", p.L[1]})
+			}
+		}
+	}
+	return out
+}
+
 func isList(v *ref.V) bool { return v.K == ref.KList && v.Tail == nil }
 
 // children lists the evaluated subforms of a form with their positions.
@@ -558,12 +611,12 @@ func children(f *ref.V) []child {
 		if len(a) == 0 {
 			return nil
 		}
-		return bodyChildren(a[1:])
+		return append(initChildren(a[0]), bodyChildren(a[1:])...)
 	case "defun":
 		if len(a) < 2 {
 			return nil
 		}
-		return bodyChildren(a[2:])
+		return append(initChildren(a[1]), bodyChildren(a[2:])...)
 	case "defvar":
 		if len(a) == 2 {
 			return []child{{"init", a[1]}}
@@ -779,7 +832,7 @@ var seenKnown = map[string]int{}
 func knownIn(notes []string) []string {
 	var out []string
 	for _, n := range notes {
-		if _, ok := knownBroken[n]; ok {
+		if isBroken(n) {
 			out = append(out, n)
 		}
 	}
@@ -836,7 +889,11 @@ func exec(x *fw.Ctx, c Case) {
 			x.Cover("avoided:" + k)
 		}
 	}
-	exp := runRef(forms, typed)
+	exps := expectations(forms, typed)
+	exp := exps[0]
+	if 1 < len(exps) {
+		x.Cover("judged-under-both-loop-binding-rules")
+	}
 	obs := map[string]any{}
 	x.Observe(obs)
 	if exp.err != nil {
@@ -846,7 +903,7 @@ func exec(x *fw.Ctx, c Case) {
 		if c.Kind == "tmpl" {
 			x.Cover("tmpl-skipped")
 		}
-		if exp.err.Class != "limit" && exp.err.Class != "type-error" {
+		if exp.err.Class != "limit" && exp.err.Class != "type-error" && exp.err.Class != "unspecified" {
 			// a generator defect, not a slip defect: make it visible
 			x.Cover("skipped-detail:" + exp.err.Msg)
 		}
@@ -867,12 +924,7 @@ func exec(x *fw.Ctx, c Case) {
 	for _, n := range known {
 		x.Cover("avoided-construct-present:" + n)
 	}
-	if hangs(exp.notes) {
-		// listed finding (witness: null): the interpreter does not return
-		x.Trivial()
-		x.Cover("not-executed:known-hang")
-		return
-	}
+
 	x.CoverN("markers-placed", markers)
 	x.CoverN("side-effects-compared", len(exp.trace))
 	if c.Kind == "tmpl" {
@@ -884,7 +936,7 @@ func exec(x *fw.Ctx, c Case) {
 			nk++
 		}
 	}
-	if c.Kind != "quote" && c.Kind != "probe" && (len(exp.trace) < 3 || nk < 2) {
+	if c.Kind != "quote" && c.Kind != "probe" && c.Kind != "det" && (len(exp.trace) < 3 || nk < 2) {
 		x.Trivial()
 	}
 	o := runSlip(forms, c.Compile, typed, budgetFor(exp))
@@ -896,7 +948,7 @@ func exec(x *fw.Ctx, c Case) {
 	} else {
 		obs["result"] = strings.Join(o.vals, " ; ")
 	}
-	kind, detail := compare(exp, o)
+	kind, detail := compareAny(exps, o)
 	if kind == "" {
 		x.Cover("agree")
 		if len(known) == 0 {
@@ -922,20 +974,22 @@ func exec(x *fw.Ctx, c Case) {
 	// shrink to a minimal program that still diverges and does not touch
 	// a listed construct the original did not touch
 	still := func(cand []*ref.V) bool {
-		e := runRef(cand, typed)
+		es := expectations(cand, typed)
+		e := es[0]
 		kn := knownIn(e.notes)
-		if e.err != nil || !subset(kn, known) || hangs(e.notes) || (0 < len(known) && len(kn) == 0) {
+		if e.err != nil || !subset(kn, known) || (0 < len(known) && len(kn) == 0) {
 			// a case that touches listed constructs is minimised within
 			// that class (it may not drift to an unrelated divergence)
 			return false
 		}
-		k, _ := compare(e, runSlip(cand, c.Compile, typed, budgetFor(e)))
+		k, _ := compareAny(es, runSlip(cand, c.Compile, typed, budgetFor(e)))
 		return k != ""
 	}
 	small := shrink(cloneForms(forms), still, 2500)
-	se := runRef(small, typed)
+	ses := expectations(small, typed)
+	se := ses[0]
 	so := runSlip(small, c.Compile, typed, budgetFor(se))
-	skind, sdetail := compare(se, so)
+	skind, sdetail := compareAny(ses, so)
 	if skind == "" { // cannot happen (shrink only accepts diverging programs)
 		small, se, skind, sdetail = forms, exp, kind, detail
 	}
@@ -975,66 +1029,91 @@ func signature(small []*ref.V, se expected, kind string) string {
 type brokenInfo struct {
 	prio  int
 	probe string // deterministic probe program re-observing the finding
-	hang  bool   // the real interpreter never returns: never executed
 }
 
-// knownBroken: constructs the unchanged tree gets wrong (listed in
-// findings/C01.json), named by the note the reference evaluator attaches to
-// an execution that touches them. The clean stream does not generate them;
-// the dirty stream (a minority of cases) enables one of them per case.
+// knownBroken: constructs the tree gets wrong, named by the note the
+// reference evaluator attaches to a program that touches them. An entry only
+// counts while findings/C01.json lists "construct=<note>" as OPEN (isBroken):
+// then the clean stream does not generate it, a minority dirty stream does,
+// and a minimised divergence touching it is attributed to it. Once the
+// finding is marked fixed the construct is ordinary language again and its
+// label cannot take the blame for anything.
 var knownBroken = map[string]brokenInfo{
-	"do-test-atom-tight":             {prio: 1, hang: true},
-	"do*-test-atom-tight":            {prio: 1, hang: true},
-	"do-test-atom":                   {prio: 2, probe: "(do ((i 0 (1+ i)) (done nil (> i 1))) (done i) (vtr 1 i))"},
-	"do*-test-atom":                  {prio: 2, probe: "(do* ((i 0 (1+ i)) (done nil (> i 1))) (done i) (vtr 1 i))"},
-	"values-0":                       {prio: 2, probe: "(list 1 (values))"},
-	"mv-through:progn":               {prio: 6, probe: "(multiple-value-list (progn (vtr 1) (values 1 2)))"},
-	"mv-into:setq":                   {prio: 7, probe: "(let ((z 0)) (multiple-value-list (setq z (values 1 2))))"},
-	"dynleak":                        {prio: 9, probe: "(let ((x 1)) (let ((f (lambda (a) (+ x a)))) (let ((x 20)) (funcall f 0))))"},
-	"mv-into:test":                   {prio: 7, probe: "(if (values nil) (vtr 1 1) (vtr 2 2))"},
-	"mv-into:and":                    {prio: 7, probe: "(and (values nil) (vtr 1 13))"},
-	"mv-into:or":                     {prio: 7, probe: "(or (values nil) (vtr 1 13))"},
-	"mv-into:let-init":               {prio: 7, probe: "(let ((x (values 1 2))) (multiple-value-list x))"},
-	"mv-into:let*-init":              {prio: 7, probe: "(let* ((x (values 1 2))) (multiple-value-list x))"},
-	"mv-into:dolist-list":            {prio: 7, probe: "(dolist (x (values (list 1 2) 3)) (vtr 1 x))"},
-	"mv-into:dotimes-count":          {prio: 7, probe: "(dotimes (i (values 2 9)) (vtr 1 i))"},
-	"mv-into:do-init":                {prio: 7, probe: "(do ((i 0 (1+ i)) (b (values 5 6) b)) ((>= i 1) (multiple-value-list b)))"},
-	"mv-into:do-step":                {prio: 7, probe: "(do ((i 0 (1+ i)) (b 5 (values i 6))) ((>= i 1) (multiple-value-list b)))"},
-	"mv-into:do*-init":               {prio: 7, probe: "(do* ((i 0 (1+ i)) (b (values 5 6) b)) ((>= i 1) (multiple-value-list b)))"},
-	"mv-into:do*-step":               {prio: 7, probe: "(do* ((i 0 (1+ i)) (b 5 (values i 6))) ((>= i 1) (multiple-value-list b)))"},
-	"mv-into:mapcar-result":          {prio: 7, probe: "(mapcar (lambda (a) (values a 2)) (list 1))"},
-	"lambda-call-bare-free-variable": {prio: 9, probe: "(funcall (lambda (a) ((lambda (b) a) 1)) 7)"},
-	"quote-shorthand-in-data":        {prio: 20, probe: "(quote (a 'b))"},
-	"quote-shorthand:quote":          {prio: 11, probe: "(list ''a)"},
-	"quote-shorthand:null":           {prio: 10, probe: "(list 'nil)"},
-	"quote-shorthand:t":              {prio: 10, probe: "(list 't)"},
-	"quote-shorthand:fixnum":         {prio: 10, probe: "(list '5)"},
-	"quote-shorthand:bignum":         {prio: 10, probe: "(list '12345678901234567890123)"},
-	"quote-shorthand:ratio":          {prio: 10, probe: "(list '3/4)"},
-	"quote-shorthand:single-float":   {prio: 10, probe: "(list '2.5f0)"},
-	"quote-shorthand:double-float":   {prio: 10, probe: "(list '1.5d0)"},
-	"quote-shorthand:long-float":     {prio: 10, probe: "(list '1.5L0)"},
-	"quote-shorthand:string":         {prio: 10, probe: "(list '\"s\")"},
-	"quote-shorthand:character":      {prio: 10, probe: "(list '#\\a)"},
-	"quote-shorthand:vector":         {prio: 10, probe: "(list '#(1 2))"},
+	"mv-into:let-init":        {prio: 7, probe: "(let ((x (values 1 2))) (multiple-value-list x))"},
+	"mv-into:let*-init":       {prio: 7, probe: "(let* ((x (values 1 2))) (multiple-value-list x))"},
+	"quote-shorthand-in-data": {prio: 20, probe: "(quote (a 'b))"},
+	"quote-shorthand:quote":   {prio: 11, probe: "(list ''a)"},
 }
 
-func hangs(notes []string) bool {
-	for _, n := range notes {
-		if knownBroken[n].hang {
+var (
+	setupOnce sync.Once
+	dirtyKeys []string // the open constructs, sorted
+	probes    []Case
+	detCases  []Case
+	tmplTable []string
+)
+
+func isBroken(note string) bool {
+	setup()
+	for _, k := range dirtyKeys {
+		if k == note {
 			return true
 		}
 	}
 	return false
 }
 
-var (
-	dirtyPlain, dirtyQuote []string
+// detPrograms: deterministic block run on every seed in both modes -
+// defun inside a binding, redefinition, forward reference, closures over
+// loop variables, functions as data, lambda lists.
+var detPrograms = []string{
+	"(defun uf1 (d) (+ d 100)) (let ((c 5)) (defun uf1 (d) (setq c (+ c d)))) (list (uf1 1) (uf1 2))",
+	"(let ((c 1)) (defun uf1 () (vtr 1 c))) (let ((c 2)) (defun uf1 () (vtr 2 c))) (list (uf1) (uf1))",
+	"(let ((c 1)) (defun uf1 (d) (setq c (+ c d)))) (list (uf1 1) (let ((c 50)) (defun uf1 (d) (setq c (* c d)))) (uf1 2) (uf1 2))",
+	"(defun uf2 (x) (uf1 (vtr 1 x))) (let ((k 10)) (defun uf1 (d) (+ d k))) (uf2 1)",
+	"(defun uf1 (d) 1) (defun uf2 (d) (uf1 d)) (let ((c 7)) (defun uf1 (d) (+ c d))) (list (uf2 1) (funcall #'uf1 2) (funcall 'uf1 3) (mapcar #'uf1 (list 4 5)))",
+	"(defun uf1 (a) a) (let ((c 3)) (defun uf1 (a b) (+ a b c))) (uf1 1 2)",
+	"(defun uf2 (n) (if (< n 1) 0 (+ n (uf1 (- n 1))))) (let ((calls 0)) (defun uf1 (n) (setq calls (+ calls 1)) (if (< n 1) calls (uf2 (- n 1))))) (list (uf2 4) (uf1 0))",
+	"(let ((x 1)) (defun uf1 () x) (let ((x 2)) (defun uf2 () (list x (uf1))) (let ((x 3)) (list x (uf1) (uf2)))))",
+	"(let ((fs nil)) (do ((i 0 (1+ i))) ((>= i 3)) (setq fs (cons (lambda (d) (+ i d)) fs))) (mapcar (lambda (f) (funcall f 10)) fs))",
+	"(let ((fs nil)) (do* ((i 0 (1+ i)) (j 5 (+ j i))) ((>= i 3) (mapcar (lambda (f) (funcall f)) fs)) (setq fs (cons (lambda () (setq j (+ j 1)) (list i j)) fs))))",
+	"(let ((acc nil)) (dolist (el (list 1 2 3) acc) (setq acc (cons (funcall (lambda (d) (vtr 1 (+ el d))) 10) acc))))",
+	"(let ((fs nil)) (dotimes (i 3) (let ((j i)) (setq fs (cons (lambda () (vtr 1 j)) fs)))) (mapcar (lambda (f) (funcall f)) fs))",
+	"(mapcar (lambda (f) (funcall f 3)) (list #'1+ (lambda (x) (* x 2)) '1- (let ((k 5)) (lambda (x) (+ x k)))))",
+	"(let ((fs (list #'+ #'- (lambda (a b) (list a b))))) (list (funcall (car fs) 1 2) (apply (second fs) (list 5 3)) (apply (nth 2 fs) 7 (list 8))))",
+	"(funcall (lambda (a &optional (b (vtr 1 (+ a 1))) c &rest r) (list a b c r)) 1)",
+	"(funcall (lambda (a &optional (b (vtr 1 (+ a 1))) c &rest r) (list a b c r)) 1 2 3 4 5)",
+	"(defun uf1 (a &key (k (vtr 1 (* a 2))) m) (list a k m)) (list (uf1 1) (uf1 1 :m 3) (uf1 1 :m 3 :k 4) (uf1 2 :k (vtr 2 9)))",
+	"(let ((b 100)) (funcall (lambda (a &optional (b a) (c (+ b 1))) (list a b c)) 1))",
+	"(let ((x 1)) (let ((f (lambda (a) (+ x a)))) (let ((x 20)) (list (funcall f 0) (mapcar f (list x)) (apply f (list x))))))",
+	"(do ((i 0 (1+ i)) (done nil (> i 1))) (done i) (vtr 1 i))",
+	"(list (multiple-value-list (progn (values 1 2))) (if (values nil 1) 1 2) (and (values nil 1) 3) (or (values nil 1) 3) (let ((z 0)) (multiple-value-list (setq z (values 4 5)))) (list 1 (values)) (mapcar (lambda (a) (values a 2)) (list 1)))",
+	"(list 'nil 't '5 '3/4 '2.5f0 '\"s\" '#\\a '#(1 2) '(a . b))",
+}
 
-	dirtyKeys []string
-	probes    []Case
-	tmplTable []string
-)
+func setup() {
+	setupOnce.Do(func() {
+		for k := range knownBroken {
+			if fw.FindingOpen("C01", "construct="+k) {
+				dirtyKeys = append(dirtyKeys, k)
+			}
+		}
+		sort.Strings(dirtyKeys)
+		for _, k := range dirtyKeys {
+			p := knownBroken[k].probe
+			probes = append(probes, Case{Kind: "probe", Src: p, Dirty: []string{k}})
+			probes = append(probes, Case{Kind: "probe", Src: p, Dirty: []string{k}, Compile: true})
+		}
+		for _, p := range detPrograms {
+			detCases = append(detCases, Case{Kind: "det", Src: p}, Case{Kind: "det", Src: p, Compile: true})
+		}
+		for _, pp := range parentPositions {
+			for _, ck := range allKinds {
+				tmplTable = append(tmplTable, pp[0]+"."+pp[1]+"<-"+ck)
+			}
+		}
+	})
+}
 
 var parentPositions = [][2]string{
 	{"call", "arg"}, {"ucall", "arg"}, {"progn", "body"}, {"progn", "last"}, {"prog1", "first"}, {"prog1", "body"},
@@ -1048,37 +1127,14 @@ var parentPositions = [][2]string{
 	{"defun", "body"}, {"defun", "last"}, {"dolist", "list"}, {"dolist", "result"}, {"dolist", "body"},
 	{"dotimes", "count"}, {"dotimes", "result"}, {"dotimes", "body"}, {"do", "init"}, {"do", "step"}, {"do", "result"}, {"do", "body"},
 	{"do*", "init"}, {"do*", "step"}, {"do*", "result"}, {"do*", "body"}, {"mvb", "body"}, {"mvb", "last"}, {"values", "arg"},
+	{"fnlist", "fn"}, {"fnlist", "arg"}, {"ll", "init"}, {"ll", "arg"}, {"loopclosure", "arg"}, {"loopclosure", "list"},
 }
 
 var mainKindOf = map[string]string{"lambda": "funcall", "defun": "ucall", "values": "mvl"}
 
-func init() {
-	for k := range knownBroken {
-		dirtyKeys = append(dirtyKeys, k)
-	}
-	sort.Strings(dirtyKeys)
-	for _, k := range dirtyKeys {
-		if strings.HasPrefix(k, "quote-shorthand") {
-			dirtyQuote = append(dirtyQuote, k)
-		} else {
-			dirtyPlain = append(dirtyPlain, k)
-		}
-	}
-	for _, k := range dirtyKeys {
-		if p := knownBroken[k].probe; p != "" {
-			probes = append(probes, Case{Kind: "probe", Src: p, Dirty: []string{k}})
-			probes = append(probes, Case{Kind: "probe", Src: p, Dirty: []string{k}, Compile: true})
-		}
-	}
-	for _, pp := range parentPositions {
-		for _, ck := range allKinds {
-			tmplTable = append(tmplTable, pp[0]+"."+pp[1]+"<-"+ck)
-		}
-	}
-}
-
 func counts(tier string) (nProbe, nTmpl, nQuote, nProg int) {
-	nProbe = len(probes)
+	setup()
+	nProbe = len(probes) + len(detCases)
 	if tier == "thorough" {
 		return nProbe, len(tmplTable) * 4, 20000, 400000
 	}
@@ -1091,7 +1147,7 @@ func nCases(tier string) int {
 }
 
 func newGen(r *rand.Rand, compile bool, dirty []string) *gen {
-	g := &gen{r: r, compile: compile, dirty: map[string]bool{}, budget: 60, maxDepth: 6, markP: 0.5}
+	g := &gen{r: r, compile: compile, dirty: map[string]bool{}, budget: 60, maxDepth: 6, markP: 0.5, shadow: true, where: "top"}
 	for _, d := range dirty {
 		g.dirty[d] = true
 	}
@@ -1100,8 +1156,11 @@ func newGen(r *rand.Rand, compile bool, dirty []string) *gen {
 
 func genCase(r *rand.Rand, i int, tier string) Case {
 	nProbe, nTmpl, nQuote, _ := counts(tier)
-	if i < nProbe {
+	if i < len(probes) {
 		return probes[i]
+	}
+	if i < nProbe {
+		return detCases[i-len(probes)]
 	}
 	i -= nProbe
 	compile := r.IntN(2) == 0
@@ -1132,14 +1191,9 @@ func genCase(r *rand.Rand, i int, tier string) Case {
 		return quoteCase(r, compile)
 	}
 	var dirty []string
-	if 0 < len(dirtyPlain) && r.IntN(8) == 0 {
-		// one listed construct per dirty case; the quote-shorthand family
-		// counts as one choice
-		if k := r.IntN(len(dirtyPlain) + 1); k < len(dirtyPlain) {
-			dirty = []string{dirtyPlain[k]}
-		} else {
-			dirty = []string{dirtyQuote[r.IntN(len(dirtyQuote))]}
-		}
+	if 0 < len(dirtyKeys) && r.IntN(12) == 0 {
+		// one open listed construct per dirty case
+		dirty = []string{dirtyKeys[r.IntN(len(dirtyKeys))]}
 	}
 	g := newGen(r, compile, dirty)
 	g.maxDepth = 3 + r.IntN(4)
